@@ -512,6 +512,12 @@ void Node::schedule_assigned_fetch(const protocol::AnnouncePayload& payload) {
         state.attempts = 0;
     }
 
+    if (!inserted && state.in_flight) {
+        // Re-announcement of a fetch that is still in flight: release the slot held for the
+        // previous provider before the request is re-targeted and restarted.
+        note_dispatch_end(state);
+    }
+
     state.peer_id = payload.peer_id;
     if (!payload.endpoint.empty()) {
         state.endpoint = payload.endpoint;
